@@ -85,6 +85,8 @@ def run(tier, seed):
         [{"op": "ensure_default"}] + [{"op": "message", "t": 0}] * n for n in (2, 3, 5)
     ] + [[{"op": "ensure_default"}, {"op": "message", "t": 0}, {"op": "message", "t": 0},
           {"op": "checkpoint", "t": 0, "to_msg": 0, "summary": "manual base"}, {"op": "message", "t": 0}, {"op": "message", "t": 0}]]
+    # many distinct words with equal counts: whatever the summary says about them must not depend on map order
+    bases += [[{"op": "ensure_default"}] + [{"op": "message", "t": 0, "words": w}] * n_ for (w, n_) in ((13, 2), (14, 4), (26, 3), (40, 2))]
     n = 0
     for b in bases:
         for stride in (1, 2):
